@@ -658,6 +658,33 @@ def trees_misc():
     yield ("fold:case_allfalse", Case((False, a)), {"fold", "case"})
 
 
+def trees_nulltests():
+    """`x == null` / `x != null` (either operand order) as an operand of every operator that takes a boolean, on both
+    sides; of `!`; of a second null test; and with every kind of compound operand inside the test"""
+    a, b, c, p, q = (C(x) for x in "abcpq")
+    forms = {"isnull": lambda x: E("bin", "==", x, E("null")), "notnull": lambda x: E("bin", "!=", x, E("null")),
+             "nullis": lambda x: E("bin", "==", E("null"), x), "nullnot": lambda x: E("bin", "!=", E("null"), x)}
+    for fname, f in forms.items():
+        for P_ in ("==", "!=", "&&", "||", "??b"):
+            yield (f"nt:{fname}:{P_}:L", mk(P_, f(a), q), {"null", "nulltest", f"op{P_}"})
+            yield (f"nt:{fname}:{P_}:R", mk(P_, q, f(a)), {"null", "nulltest", f"op{P_}"})
+            for gname, g in forms.items():
+                if (fname, gname) in (("isnull", "notnull"), ("notnull", "notnull"), ("notnull", "isnull"), ("nullnot", "notnull"), ("isnull", "isnull")):
+                    yield (f"nt:{fname}:{P_}:{gname}", mk(P_, f(a), g(b)), {"null", "nulltest", f"op{P_}"})
+        yield (f"nt:{fname}:not", E("un", "!", f(a)), {"null", "nulltest", "un!"})
+        yield (f"nt:{fname}:of-test", forms["notnull"](f(a)), {"null", "nulltest"})
+        yield (f"nt:{fname}:of-test2", forms["isnull"](f(a)), {"null", "nulltest"})
+        # compound operands inside the test
+        yield (f"nt:{fname}:sum", f(a + b), {"null", "nulltest", "op+"})
+        yield (f"nt:{fname}:cmp", f(a > b), {"null", "nulltest", "op>"})
+        yield (f"nt:{fname}:and", f(p & q), {"null", "nulltest", "op&&"})
+        yield (f"nt:{fname}:or", f(p | q), {"null", "nulltest", "op||"})
+        yield (f"nt:{fname}:neg", f(E("un", "-", a)), {"null", "nulltest", "un-"})
+        yield (f"nt:{fname}:coalesce", f(a.coalesce(b)), {"null", "nulltest", "op??"})
+        yield (f"nt:{fname}:eq", f(E("bin", "==", a, b)), {"null", "nulltest", "op=="})
+        yield (f"nt:{fname}:case", f(Case((p, a), (q, b))), {"null", "nulltest", "case"})
+
+
 def trees_div_i():
     """integer division is kept in a small designated sub-family: its sqlite template is a known finding
     (wrong for |l|<|r| on integers; claims strength 100 although its top level is a product), and nested
@@ -718,7 +745,7 @@ def trees_chains():
 
 def family_c02(tier, seed):
     out = []
-    items = list(trees_pairs()) + list(trees_unary()) + list(trees_misc()) + list(trees_div_i())
+    items = list(trees_pairs()) + list(trees_unary()) + list(trees_misc()) + list(trees_nulltests()) + list(trees_div_i())
     chains = list(trees_chains())
     if tier == "quick":
         rc = random.Random(seed + 3)
@@ -1016,7 +1043,9 @@ def family_c05(tier, seed):
 
 
 # ---------------------------------------------------------------- C09: generated-name capture family
-C09_SCHEMA = {"table_0": ["a", "_expr_0", "c"], "table_1": ["a", "_expr_0"], "table_2": ["a", "d"]}
+C09_SCHEMA = {"table_0": ["a", "_expr_0", "c"], "table_1": ["a", "_expr_0"], "table_2": ["a", "d"],
+              # two tables of the same name in different schemas (SQLite: main and temp exist in every connection)
+              "main.tq": ["a", "b"], "temp.tq": ["a", "b"]}
 
 
 def family_c09(tier, seed):
@@ -1047,6 +1076,20 @@ def family_c09(tier, seed):
             ("x:let-named-table_0", Prog([From("table_0"), Join("table_2", "==a")], lets=[("table_0", [From("table_1"), Filter(C("a") > 0)])])),
             ("x:let-named-table_0-cte", Prog([From("table_2"), Derive(x=C("a") + 1), Filter(C("x") > 1), Join("table_0", "==a"), Select("x", "table_0._expr_0")],
                                             lets=[("table_0", [From("table_1"), Filter(C("a") > 0)])])),
+        ]
+        xa, ya = C("x.a"), C("y.a")
+        extra += [
+            # tables that differ only in their schema must both keep their names
+            ("x:schema-join", Prog([From("main.tq", alias="x"), Join("temp.tq", xa == ya, alias="y"), Select("x.b", yb=C("y.b"))])),
+            ("x:schema-join-rev", Prog([From("temp.tq", alias="x"), Join("main.tq", xa == ya, alias="y", side="left"), Select("x.b", yb=C("y.b"))])),
+            ("x:schema-join-cte", Prog([From("main.tq", alias="x"), Derive(k=C("a") + 1), Filter(C("k") > 1), Join("temp.tq", xa == ya, alias="y"), Select("k", yb=C("y.b"))])),
+            ("x:schema-append", Prog([From("main.tq"), Select("a", "b"), Append([From("temp.tq"), Select("a", "b")])])),
+            ("x:schema-let-same-name", Prog([From("tq"), Join("temp.tq", C("tq.a") == ya, alias="y"), Select("tq.b", yb=C("y.b"))],
+                                            lets=[("tq", [From("main.tq"), Filter(C("a") > 0)])])),
+            ("x:schema-join-user-table_0", Prog([From("main.tq", alias="x"), Join("temp.tq", xa == ya, alias="y"), Join("table_0", xa == C("table_0.a")),
+                                                 Select("x.b", yb=C("y.b"), c=C("table_0.c"))])),
+            ("x:schema-join-twice", Prog([From("main.tq", alias="x"), Join("temp.tq", xa == ya, alias="y"), Join("main.tq", ya == C("z.a"), alias="z"),
+                                          Select("x.b", yb=C("y.b"), zb=C("z.b"))])),
         ]
         out += extra
     finally:
